@@ -274,3 +274,19 @@ func renderConds(ctx *abs.Ctx, g map[string]string, conds [][]interface{}) ([]ov
 	}
 	return out, nil
 }
+
+// exported helpers for the conditional API harness
+
+func MRowAbs(ctx *abs.Ctx, g map[string]string, r MRow) map[string]interface{} {
+	return mrowAbsCtx(ctx, g, r)
+}
+
+func NormList(x interface{}) []interface{} { return normList(x) }
+
+// TypedCond instantiates a condition value of the integer universe in the column's type.
+func TypedCond(c abs.Col, col string, v interface{}) interface{} {
+	if col == "a" {
+		return typed(c, toInt(v), 0)
+	}
+	return typed(c, interface{}(normList(v)), 1)
+}
